@@ -13,7 +13,8 @@ import z3
 
 from .values import (Unsupported, EngineError, is_z3, is_boolish, is_intish, is_realish,
                      is_numish, concretize, simp, Z, ZB, ZR, EnumV, Opt, SymList, EmptyList,
-                     SymSet, Obj, ActionV, ClassRef, TypeV, FuncV, RangeV, DictV, INF, Inf, STORAGE_CODES,
+                     SymSet, Obj, ActionV, ClassRef, TypeV, FuncV, RangeV, DictV, ObjList, RowRef, PartialV, ListLit, INF, Inf,
+                     STORAGE_CODES,
                      STEPTYPE)
 from .source import AnchorError
 
@@ -210,6 +211,8 @@ class Engine:
         self.delegated = []
         self.inputs = {}
         self.uses_lemmas = set()
+        self.last_min_witness = None
+        self._pending_objects = []
         self.concrete_nondet = []
         self.concrete_limit = 10 ** 9
         self.concrete_failed = []
@@ -231,6 +234,12 @@ class Engine:
                 ln = z3.Int(n + ".len")
                 return SymList(arrs, ln, comps, tup=(len(comps) > 1 or (len(ty) > 2 and ty[2])),
                                immutable=(tag == "tuplelist")), [ln >= 0]
+            if tag == "objlist":
+                return self.fresh_objlist(ty[1], hint)
+            if tag == "obj":
+                oid = "%s!%d" % (hint, next(self.fresh_id))
+                self._pending_objects.append((oid, ty[1]))
+                return Obj(oid, ty[1]), []
             if tag == "dict":
                 items, cons = {}, []
                 for k, t in ty[1].items():
@@ -278,6 +287,8 @@ class Engine:
             return SymSet(arr, card), [card >= 0, z3.ForAll([x], z3.Implies(z3.Select(arr, x), card >= 1))]
         if ty == "none":
             return None, []
+        if ty == "any":
+            return z3.Int(n), []
         if ty == "dict":
             raise Unsupported("fresh dict without declared keys")
         raise EngineError("unknown type %r" % (ty,))
@@ -316,6 +327,14 @@ class Engine:
         if isinstance(v, SymSet):
             x, cs = self.fresh("set", hint)
             return x, cs + [x.card >= 0]
+        if isinstance(v, ObjList):
+            return self.fresh_objlist(v.cls, hint)
+        if isinstance(v, (DictV, PartialV, RowRef)):
+            return v, []
+        if isinstance(v, ListLit):
+            etypes = [self.type_of_value(v[0])]
+            x, cs = self.fresh(("list", etypes), hint)
+            return x, cs
         if isinstance(v, tuple):
             vals, cons = [], []
             for i, c in enumerate(v):
@@ -339,6 +358,92 @@ class Engine:
             body = sel >= 0 if hi is None else z3.And(sel >= 0, sel <= hi)
             return [z3.ForAll([i], body)]
         return []
+
+    # ------------------------------------------------------------------ lists of objects
+    def objlist_sorts(self, cls):
+        out = {}
+        for f, ty in self.reg.fields_of(cls).items():
+            if isinstance(ty, tuple) and ty[0] in ("list", "tuplelist") and len(ty[1]) == 1:
+                out[f] = z3.ArraySort(z3.IntSort(), z3.ArraySort(z3.IntSort(), self.sort_of(ty[1][0])))
+                out[f + ".len"] = z3.ArraySort(z3.IntSort(), z3.IntSort())
+            elif isinstance(ty, str) and ty in ("int", "nat", "bool", "real"):
+                out[f] = z3.ArraySort(z3.IntSort(), self.sort_of(ty))
+            else:
+                raise Unsupported("field %s.%s of type %r in a list of objects" % (cls, f, ty))
+        return out
+
+    def fresh_objlist(self, cls, hint):
+        n = "%s!%d" % (hint, next(self.fresh_id))
+        arrays = {k: z3.Const("%s.%s" % (n, k), srt) for k, srt in self.objlist_sorts(cls).items()}
+        ln = z3.Int(n + ".len")
+        cons = [ln >= 0]
+        i = z3.Int("r!%d" % next(self.fresh_id))
+        for k, a in arrays.items():
+            if k.endswith(".len"):
+                cons.append(z3.ForAll([i], z3.Select(a, i) >= 0))
+        return ObjList(cls, arrays, ln, self.reg.fields_of(cls)), cons
+
+    def materialise(self, st, lst, row):
+        """Temporary heap object holding row `row` of an object list."""
+        oid = "row!%d" % next(self.fresh_id)
+        fields = {}
+        for f, ty in lst.ftypes.items():
+            if f + ".len" in lst.arrays:
+                fields[f] = SymList([simp(z3.Select(lst.arrays[f], Z(row)))],
+                                    simp(z3.Select(lst.arrays[f + ".len"], Z(row))), ty[1], False)
+            else:
+                fields[f] = simp(z3.Select(lst.arrays[f], Z(row)))
+        st.heap[oid] = fields
+        obj = Obj(oid, lst.cls)
+        # rows are only ever modified through method contracts whose frames preserve the class
+        # invariant, and the constructor establishes it
+        for label, expr in self.reg.invariant_of(lst.cls):
+            inv = State()
+            inv.frames = [Frame({"self": obj}, None, None)]
+            inv.heap = st.heap
+            inv.spec_mode = 1
+            st.assume(self.ev_spec(expr, inv))
+        return obj
+
+    def writeback(self, st, lst, row, obj):
+        arrays = dict(lst.arrays)
+        for f, ty in lst.ftypes.items():
+            v = st.heap[obj.oid][f]
+            if f + ".len" in arrays:
+                if isinstance(v, EmptyList):
+                    v = SymList([z3.K(z3.IntSort(), self.default_of(ty[1][0]))], 0, ty[1], False)
+                arrays[f] = simp(z3.Store(arrays[f], Z(row), v.arrs[0]))
+                arrays[f + ".len"] = simp(z3.Store(arrays[f + ".len"], Z(row), Z(v.length)))
+            else:
+                arrays[f] = simp(z3.Store(arrays[f], Z(row), ZB(v) if is_boolish(v) else Z(v)))
+        del st.heap[obj.oid]
+        return ObjList(lst.cls, arrays, lst.length, lst.ftypes)
+
+    def row_call(self, st, ref, meth, args, kw, node):
+        c = self.reg.method_contract(ref.lst.cls, meth)
+        if c is None:
+            raise Unsupported("method %s.%s has no contract" % (ref.lst.cls, meth))
+        if not st.spec_mode:
+            self.oblige(st, And(self.cmp(ast.GtE(), ref.row, 0), self.cmp(ast.Lt(), ref.row, ref.lst.length)),
+                        "index_in_range", node)
+        tmp = self.materialise(st, ref.lst, ref.row)
+        res = self.call_contract(c, [tmp] + list(args), kw, st, node)
+        if c.frame:
+            new = self.writeback(st, ref.lst, ref.row, tmp)
+            self.store_target(ref.target, new, st, node)
+        else:
+            st.heap.pop(tmp.oid, None)
+        return res
+
+    def new_object(self, cls, args, kw, st, node):
+        """Cls(...): allocate a heap record and run the constructor's contract on it."""
+        c = self.reg.method_contract(cls, "__init__", exact=False)
+        oid = "%s!%d" % (cls, next(self.fresh_id))
+        st.heap[oid] = {}
+        obj = Obj(oid, cls)
+        if c is not None:
+            self.call_contract(c, [obj] + list(args), kw, st, node)
+        return obj
 
     # ------------------------------------------------------------------ obligations
     def oblige(self, st, cond, label, node, props=None, kind="implicit", clause=None, site=None):
@@ -546,6 +651,10 @@ class Engine:
         raise Unsupported("comparison %s" % type(op).__name__)
 
     def equal(self, a, b):
+        if isinstance(a, Opt) and b is None:
+            return a.isnone
+        if isinstance(b, Opt) and a is None:
+            return b.isnone
         if isinstance(a, Opt) or isinstance(b, Opt):
             oa, ob = to_opt(a) if (a is None or isinstance(a, Opt)) else Opt(False, a), \
                 to_opt(b) if (b is None or isinstance(b, Opt)) else Opt(False, b)
@@ -654,6 +763,10 @@ class Engine:
             return MAXSIZE
         if name in self.contract.globals:
             return self.ev(ast.parse(self.contract.globals[name], mode="eval").body, st)
+        if name in self.reg.classes:
+            return ClassRef(name)
+        if name in self.reg.class_aliases:
+            return ClassRef(self.reg.class_aliases[name])
         if name == "warnings":
             return ClassRef("warnings")
         fi = st.frames[-1].func or self.fi
@@ -703,7 +816,7 @@ class Engine:
             if attr == "args":
                 return tuple(base.args)
             raise Unsupported("action attribute " + attr)
-        if isinstance(base, (SymList, EmptyList, SymSet)):
+        if isinstance(base, (SymList, EmptyList, SymSet, ListLit)):
             return ("listmethod", base, attr, node)
         raise Unsupported("attribute %s on %s" % (attr, type(base).__name__))
 
@@ -827,10 +940,12 @@ class Engine:
     def ev_List(self, n, st):
         if not n.elts:
             return EmptyList()
-        vals = [self.ev(e, st) for e in n.elts]
+        return ListLit(self.ev(e, st) for e in n.elts)
+
+    def to_symlist(self, lit, st, node):
         lst = EmptyList()
-        for v in vals:
-            lst = self.list_append(lst, v, st, n)
+        for v in lit:
+            lst = self.list_append(lst, v, st, node)
         return lst
 
     def ev_Set(self, n, st):
@@ -874,13 +989,40 @@ class Engine:
         it = self.ev(gen.iter, st)
         if not isinstance(it, RangeV) or it.step != 1 or not isinstance(gen.target, ast.Name):
             raise Unsupported("comprehension over non-range")
-        j = z3.Int("j!%d" % next(self.fresh_id))
-        st2 = st.fork()
-        st2.frames.append(Frame({gen.target.id: simp(j + Z(it.lo))}, len(st2.frames) - 1,
-                                st.frames[-1].func))
-        st2.spec_mode += 1
-        elt = self.ev(n.elt, st2)
         n_items = Ite(self.cmp(ast.Gt(), it.hi, it.lo), self.arith(ast.Sub(), it.hi, it.lo, st, n), 0)
+        if n_items == 0:
+            return EmptyList()
+        uses_target = any(isinstance(e, ast.Name) and e.id == gen.target.id for e in ast.walk(n.elt))
+        # [Cls() for _ in range(k)]: k default-constructed objects
+        if isinstance(n.elt, ast.Call) and isinstance(n.elt.func, ast.Name) and \
+                n.elt.func.id in self.reg.classes and not uses_target and not st.spec_mode:
+            cls = n.elt.func.id
+            proto = self.ev(n.elt, st)          # one constructor call: obligations of __init__
+            arrays = {}
+            for f, ty in self.reg.fields_of(cls).items():
+                v = st.heap[proto.oid][f]
+                if isinstance(ty, tuple) and ty[0] in ("list", "tuplelist"):
+                    if isinstance(v, EmptyList):
+                        v = SymList([z3.K(z3.IntSort(), self.default_of(ty[1][0]))], 0, ty[1], False)
+                    arrays[f] = z3.K(z3.IntSort(), v.arrs[0])
+                    arrays[f + ".len"] = z3.K(z3.IntSort(), Z(v.length))
+                else:
+                    arrays[f] = z3.K(z3.IntSort(), ZB(v) if is_boolish(v) else Z(v))
+            del st.heap[proto.oid]
+            return ObjList(cls, arrays, n_items, self.reg.fields_of(cls))
+        # general case: the element expression is evaluated once for an arbitrary index of the
+        # range (a fresh constant, under the guard lo <= j < hi), so that its definedness
+        # obligations are generated for every element; the list is then the lambda-array.
+        j = z3.Int("j!%d" % next(self.fresh_id))
+        jval = simp(j + Z(it.lo))
+        frame = Frame({gen.target.id: jval}, len(st.frames) - 1, st.frames[-1].func)
+        st.frames.append(frame)
+        st.guards.append(And(self.cmp(ast.GtE(), jval, it.lo), self.cmp(ast.Lt(), jval, it.hi)))
+        try:
+            elt = self.ev(n.elt, st)
+        finally:
+            st.guards.pop()
+            st.frames.pop()
         if isinstance(elt, EnumV):
             arr = z3.Lambda([j], Z(elt.code))
             ety = "storage" if elt.sort == "StorageType" else "str"
@@ -905,6 +1047,17 @@ class Engine:
         return self.index_value(base, idx, st, n)
 
     def index_value(self, base, idx, st, node):
+        if isinstance(base, Opt) and isinstance(base.val, ObjList):
+            self.oblige(st, Not(base.isnone), "none_is_not_subscriptable", node)
+            base = base.val
+        if isinstance(base, ObjList):
+            return RowRef(base, idx, node.value if isinstance(node, ast.Subscript) else None)
+        if isinstance(base, RowRef):
+            if st.spec_mode:
+                # specification read: total (no bounds obligation), through the class's content field
+                f = self.reg.classes[base.lst.cls].index_field
+                return simp(z3.Select(z3.Select(base.lst.arrays[f], Z(base.row)), Z(idx)))
+            return self.row_call(st, base, "__getitem__", [idx], {}, node)
         if isinstance(base, DictV):
             key = self.dict_key(idx)
             if key is not None:
@@ -1017,10 +1170,15 @@ class Engine:
             base = self.ev(f.value, st)
             if isinstance(base, ClassRef) and base.name == "warnings":
                 return None       # warnings.warn(...): no state effect (dropped, DESIGN.md 3.1)
-            target = self.getattr_(base, f.attr, st, n) if not isinstance(base, (SymList, EmptyList, SymSet)) \
-                else ("listmethod", base, f.attr, n)
+            if isinstance(base, RowRef):
+                target = None
+            else:
+                target = self.getattr_(base, f.attr, st, n) if not isinstance(base, (SymList, EmptyList, SymSet, ListLit)) \
+                    else ("listmethod", base, f.attr, n)
             args = [self.ev(a, st) for a in n.args]
             kw = {k.arg: self.ev(k.value, st) for k in n.keywords}
+            if isinstance(base, RowRef):
+                return self.row_call(st, base, f.attr, args, kw, n)
             if isinstance(target, tuple) and target and target[0] == "boundmethod":
                 c = self.reg.method_contract(target[1].cls, target[2])
                 return self.call_contract(c, [target[1]] + args, kw, st, n)
@@ -1033,15 +1191,16 @@ class Engine:
         # spec intrinsics
         if name in ("forall", "exists"):
             return self.quantifier(name, n, st)
-        if name in ("forall_int", "exists_int"):      # unbounded: forall_int(lambda n, s: ...)
+        if name in ("forall_int", "exists_int", "forall_real"):   # unbounded: forall_int(lambda n, s: ...)
             lam = n.args[0]
             names = [a.arg for a in lam.args.args]
-            vs = [z3.Int("%s!%d" % (a, next(self.fresh_id))) for a in names]
+            mk = z3.Real if name == "forall_real" else z3.Int
+            vs = [mk("%s!%d" % (a, next(self.fresh_id))) for a in names]
             st2 = st.fork()
             st2.frames.append(Frame(dict(zip(names, vs)), len(st2.frames) - 1, st.frames[-1].func))
             st2.spec_mode += 1
             body = ZB(self.truth(self.ev(lam.body, st2), st2, n))
-            return z3.ForAll(vs, body) if name == "forall_int" else z3.Exists(vs, body)
+            return z3.Exists(vs, body) if name == "exists_int" else z3.ForAll(vs, body)
         if name == "implies":
             a = self.truth(self.ev(n.args[0], st), st, n)
             if a is False:
@@ -1054,6 +1213,10 @@ class Engine:
             return Implies(a, b)
         if name == "old":
             return self.ev_old(n.args[0], st)
+        if name == "OPCOST":
+            # cost of an operation object, through the (pure) contract of Operation.cost
+            op = self.ev(n.args[0], st)
+            return self.call_contract(self.reg.contracts["seq.basic_functions.Operation.cost"], [op], {}, st, n)
         if name == "assume":
             c = self.truth(self.ev(n.args[0], st), st, n)
             st.assume(c)
@@ -1069,6 +1232,19 @@ class Engine:
         args = [self.ev(a, st) for a in n.args]
         kw = {k.arg: self.ev(k.value, st) for k in n.keywords}
         v, i = st.lookup(name)
+        if isinstance(v, PartialV):
+            kw2 = dict(v.kwargs)
+            kw2.update(kw)
+            return self.new_object(v.func.name, args, kw2, st, n)
+        if name == "partial":
+            if not args or not isinstance(args[0], ClassRef):
+                raise Unsupported("partial() of a non-class")
+            return PartialV(args[0], kw)
+        if name == "dict" and len(args) == 1 and isinstance(args[0], DictV):
+            return DictV(args[0].items)
+        if i is None and name in self.reg.classes and self.reg.method_contract(name, "__init__") is not None \
+                and name not in ACTION_KINDS:
+            return self.new_object(name, args, kw, st, n)
         if isinstance(v, FuncV):
             raise Unsupported("closure %s called in expression position (only statement-level "
                               "calls are inlined)" % name)
@@ -1121,7 +1297,8 @@ class Engine:
         st2 = st.fork()
         st2.heap = {k: dict(v) for k, v in st.old_heap.items()}
         if st.old_vars is not None:
-            st2.frames = [Frame(dict(st.old_vars), None, st.frames[0].func)]
+            # entry values of the function's variables; quantifier-bound frames are kept
+            st2.frames = [Frame(dict(st.old_vars), None, st.frames[0].func)] + st2.frames[1:]
         st2.spec_mode += 1
         return self.ev(node, st2)
 
@@ -1154,6 +1331,16 @@ class Engine:
     # builtins -----------------------------------------------------------
     def builtin_len(self, args, kw, st, n):
         v = args[0]
+        if isinstance(v, ObjList):
+            return v.length
+        if isinstance(v, RowRef):
+            if st.spec_mode:
+                f = self.reg.classes[v.lst.cls].index_field
+                return simp(z3.Select(v.lst.arrays[f + ".len"], Z(v.row)))
+            return self.row_call(st, v, "__len__", [], {}, n)
+        if isinstance(v, Opt) and isinstance(v.val, ObjList):
+            self.oblige(st, Not(v.isnone), "len_of_none", n)
+            return v.val.length
         if isinstance(v, SymList):
             return v.length
         if isinstance(v, EmptyList):
@@ -1165,11 +1352,28 @@ class Engine:
         if isinstance(v, ActionV):
             c = self.reg.method_contract(v.kind, "__len__")
             return self.call_contract(c, [v], {}, st, n)
+        if isinstance(v, Obj):
+            c = self.reg.method_contract(v.cls, "__len__")
+            if c is not None:
+                return self.call_contract(c, [v], {}, st, n)
         raise Unsupported("len of %s" % type(v).__name__)
 
     def builtin_min(self, args, kw, st, n):
         if len(args) == 1:
-            raise Unsupported("min of an iterable")
+            lst = args[0]
+            if not isinstance(lst, SymList) or lst.tup:
+                raise Unsupported("min of %s" % type(lst).__name__)
+            # ValueError on an empty sequence; otherwise the minimum is characterised, not computed:
+            # it is <= every element and equal to one of them
+            self.oblige(st, self.cmp(ast.GtE(), lst.length, 1), "min_of_nonempty_sequence", n)
+            v, cs = self.fresh(lst.etypes[0], "min")
+            i = z3.Int("i!%d" % next(self.fresh_id))
+            k = z3.Int("argmin!%d" % next(self.fresh_id))      # explicit witness (ghost)
+            ln = Z(lst.length)
+            st.assume(z3.ForAll([i], z3.Implies(z3.And(0 <= i, i < ln), Z(v) <= z3.Select(lst.arrs[0], i))))
+            st.assume(z3.And(0 <= k, k < ln, Z(v) == z3.Select(lst.arrs[0], k)))
+            self.last_min_witness = k
+            return v
         r = args[0]
         for a in args[1:]:
             r = Ite(self.cmp(ast.Lt(), a, r), a, r)
@@ -1286,6 +1490,8 @@ class Engine:
         updated in place (values are immutable, the binding is rewritten)."""
         def rebinding(newval):
             self.store_target(target_node, newval, st, node)
+        if isinstance(lst, ListLit):
+            lst = self.to_symlist(lst, st, node)
         if isinstance(lst, (SymList, EmptyList)):
             if meth == "append":
                 rebinding(self.list_append(lst, args[0], st, node))
@@ -1303,6 +1509,8 @@ class Engine:
                 val = self.list_get(lst, nl)
                 rebinding(SymList(lst.arrs, nl, lst.etypes, lst.tup))
                 return val
+            if meth == "__len__":
+                return lst.length if isinstance(lst, SymList) else 0
             if meth == "count":
                 v = args[0]
                 fn = self.reg.count_function(self, lst, v)
@@ -1427,13 +1635,29 @@ class Engine:
             else:
                 res = self.apply_uf(c.uf, [bound[p] for p in c.uf_params])
                 res = c.wrap_result(res)
+        elif c.result_expr is not None:
+            res = self.ev(self.reg.parse_expr(c.result_expr), cst)
+        elif isinstance(c.returns, tuple) and c.returns[0] == "obj":
+            cls = c.returns[1]
+            oid = "%s!%d" % (cls, next(self.fresh_id))
+            st.heap[oid] = {}
+            for fld, fty in self.reg.fields_of(cls).items():
+                v, cs = self.fresh(fty[1:] if isinstance(fty, str) and fty.startswith("?") else fty,
+                                   "%s.%s" % (oid, fld))
+                st.heap[oid][fld] = v
+                for x in cs:
+                    st.assume(x)
+            res = Obj(oid, cls)
         elif c.returns is not None:
             res, cs = self.fresh(c.returns, "ret_" + c.short)
             for x in cs:
                 st.assume(x)
         # frame havoc
         selfv = bound.get("self")
-        if c.frame and isinstance(selfv, Obj):
+        if c.sets and isinstance(selfv, Obj):
+            for fld, expr in c.sets.items():
+                st.heap[selfv.oid][fld] = self.ev(self.reg.parse_expr(expr), cst)
+        if c.frame and isinstance(selfv, Obj) and not c.sets:
             decl = self.reg.fields_of(selfv.cls)
             for fld in c.frame:
                 cur = st.heap[selfv.oid].get(fld)
